@@ -146,6 +146,10 @@ class ArgumentList:
         tmp = "".join(tmp)
         if do_strip:
             tmp = tmp.strip()
+        if len(tmp) > 256 * 1024:
+            # same cap as for arguments fetched by index: a template that passes {{{1}}}{{{1}}} on to itself
+            # would otherwise double the value at every level (2**33 characters within the recursion limit)
+            raise MemoryLimitError("template argument too long: %s bytes" % len(tmp))
 
         self.named_args[n] = (do_strip, tmp)
         return tmp
